@@ -418,7 +418,7 @@ def rules_shard(job):
             for i, c in mine:
                 mism, obs, n = compare_table(getattr(mod, f"K_{i}"), c, fl)
                 res["pairs"] += n
-                res["mismatches"].extend(mism[:max(0, 40 - len(res["mismatches"]))])
+                res["mismatches"].extend(mism[:max(0, 30 - len(res["mismatches"]))])
                 for key, ex in obs:
                     o = res["observations"].setdefault(key, [0, ex])
                     o[0] += 1
@@ -452,7 +452,7 @@ def rules_shard(job):
         for context in CONTEXTS:
             label, obs = run_one_context(scratch, one, fl, context, f"{tag}_{num}".replace("-", "_"))
             res["ctx_results"].append((context, fl, label))
-            if label != "ok" and len(res["mismatches"]) < 40:
+            if label != "ok" and sum(1 for m in res["mismatches"] if m["case"]["level"] in CONTEXTS) < 15:
                 res["mismatches"].append({"what": f"{context} ({fl}): {label}",
                                           "case": {"tlc": one, "flavour": fl, "level": context, "row": 0},
                                           "expected": {"executable": one["tab"][0]["y"] == "", "broken": one["tab"][0]["y"]},
